@@ -278,7 +278,7 @@ def run(ctx):
             what, exp, obs, kf = v
             if kf is None:
                 search_ok = False
-            ctx.report("search:%s:%s" % (what[:40], json.dumps(tag)[:60]), "C03 fails on the real code (%s): %s" % (tag, what),
+            ctx.report("search:%s:%s:%s" % (kf, what[:40], json.dumps(tag)[:60]), "C03 fails on the real code (%s): %s" % (tag, what),
                        {"kind": "search", "case": case, "expected": exp, "observed": obs, "what": what,
                         "wire_hex": hexb(T.wire_of(real)), "failing_input_found": True}, kf_class=kf)
         if len(samples) < 6 and i % 1777 == 0:
